@@ -44,6 +44,9 @@ def _shape(n):
     """(tag-prefix, [child nodes], suffix) for one node; children are projected separately (iteratively)."""
     t = type(n)
     if t is ast.Identifier:
+        if not isinstance(n.namespace, tuple):
+            # the parser builds tuples; a list with the same members makes the node compare UNEQUAL: the projection keeps that
+            return ["Id", {"container": type(n.namespace).__name__, "items": list(n.namespace)}, n.name], None
         return ["Id", list(n.namespace), n.name], None
     if t is ast.Attribute:
         if not isinstance(n.attr, str):
@@ -68,6 +71,8 @@ def _shape(n):
     if t is ast.List:
         if not isinstance(n.val, (list, tuple)):
             raise Unprojectable("List.val is %r" % type(n.val))
+        if not isinstance(n.val, list):
+            return ["List", [None] * len(n.val), {"container": type(n.val).__name__}], [((1, i), x) for i, x in enumerate(n.val)]
         return ["List", [None] * len(n.val)], [((1, i), x) for i, x in enumerate(n.val)]
     if t is ast.BinOp:
         return ["Bin", BIN[type(n.op)], None, None], [(2, n.left), (3, n.right)]
@@ -80,6 +85,8 @@ def _shape(n):
     if t is ast.Call:
         if not isinstance(n.args, (list, tuple)):
             raise Unprojectable("Call.args is %r" % type(n.args))
+        if not isinstance(n.args, list):
+            return ["Call", None, [None] * len(n.args), {"container": type(n.args).__name__}], [(1, n.func)] + [((2, i), x) for i, x in enumerate(n.args)]
         return ["Call", None, [None] * len(n.args)], [(1, n.func)] + [((2, i), x) for i, x in enumerate(n.args)]
     if t is ast.NamedParam:
         return ["Named", None, None], [(1, n.name), (2, n.param)]
